@@ -302,3 +302,108 @@ def float_text_check(rep, tier, seed):
         ob.detail["observed"] = f"printed as {bad[1]!r}, which {bad[2]}"
     rep.add(ob)
     return n
+
+
+# ------------------------------------------------------------------------------------------- IC10Instruction.to_string
+# One emitted line = indentation, opcode, output register, inputs in order, each separated by one blank, then the comment.
+# Checked on the real method for 0..4 inputs (every IC10 instruction has at most 6 operands; the loop over the concrete-length
+# input list is unrolled completely), operands being plain tokens or registers, with / without output and comment.
+def _line_spec(op, indent, comment, out_text, toks):
+    text = " " * (indent * 2) + op
+    if out_text is not None:
+        text = text + " " + out_text
+    for t in toks:
+        text = text + " " + t
+    if comment:
+        text = text + "  # " + comment
+    return text
+
+
+def instr_post(ins, op, indent, comment, out_text, toks, result):
+    return result == _line_spec(op, indent, comment, out_text, toks)
+
+
+def instruction_contracts():
+    from pyvc.state import fresh as _fresh
+
+    tree = X.module_ast("types.py")
+    classes = {n: class_from_source(tree, n) for n in ("IC10Operand", "IC10Instruction", "IC10Register")}
+    f_str = classes["IC10Instruction"].methods["to_string"]
+    w = operand_world()
+    w["IC10Operand"] = VType("IC10Operand")
+    w["IC10Register"] = VType("IC10Register")
+    w["_DevicesLogicType"] = VType("_DevicesLogicType")
+    w["CompilerError"] = VType("CompilerError")
+    w["module:compile_pass"] = VMod("compile_pass", {"CompilerError": VType("CompilerError")})
+    STRS = z3.StringSort()
+
+    def reg(st, name):
+        return st.new_obj("IC10Register", {"name": VC(name), "scope": VC(""), "code_expr": VStr(_fresh(name + "_text", STRS)), "_color": VC(0)})
+
+    cs = []
+    for k in range(0, 5):
+        for shape in (["tok"] * k, ["reg"] + ["tok"] * (k - 1) if k else None, ["tok"] * (k - 1) + ["reg"] if k > 1 else None):
+            if shape is None:
+                continue
+            for has_out in (False, True):
+                def mk(st, pname, shape=tuple(shape), has_out=has_out):
+                    toks, ops = [], []
+                    for i, kind in enumerate(shape):
+                        if kind == "reg":
+                            r = reg(st, f"in{i}")
+                            ops.append(st.new_obj("IC10Operand", {"value": r}))
+                            toks.append(st.store[r.oid]["code_expr"])
+                        else:
+                            t = VStr(_fresh(f"tok{i}", STRS))
+                            ops.append(st.new_obj("IC10Operand", {"value": t}))
+                            toks.append(t)
+                    out = reg(st, "out") if has_out else VC(None)
+                    op = VStr(_fresh("op", STRS))
+                    st.assume(z3.Length(op.t) >= 1)
+                    indent = VInt(_fresh("indent", z3.IntSort()))
+                    st.assume(indent.t >= 0)
+                    comment = VStr(_fresh("comment", STRS))
+                    ins = st.new_obj("IC10Instruction", {"op": op, "inputs": st.new_list(ops), "output": out, "comment": comment, "indent": indent, "node": VC(None), "lineno": VC(None)})
+                    st.ghost["line"] = (op, indent, comment, st.store[out.oid]["code_expr"] if has_out else VC(None), VTuple(toks))
+                    return ins
+
+                kind = KCustom(f"{k} inputs ({'/'.join(shape) or '-'}), {'with' if has_out else 'no'} output", mk, lambda m, v: None)
+
+                def fun(eng):
+                    return X.vfun(ast.parse("def render(ins):\n    return ins.to_string()\n").body[0], "harness:IC10Instruction.to_string")
+
+                def setup(eng, st, args):
+                    op, indent, comment, out_text, toks = st.ghost["line"]
+                    st.ghost["spec_args"] = [op, indent, comment, out_text, toks]
+
+                cs.append((kind, fun, setup))
+    kinds = [c[0] for c in cs]
+
+    def ghost_args(eng, st, v):
+        return VTuple([v] + list(st.ghost["line"]))
+
+    def post(ins, result):
+        text, op, indent, comment, out_text, toks = result
+        return text == _line_spec(op, indent, comment, out_text, toks)
+
+    def search_instr(clause):
+        import itertools
+
+        from stationeers_pytrapic.types import IC10Instruction, IC10Register
+
+        for k, indent, comment, has_out in itertools.product(range(0, 5), (0, 1, 3), ("", "note"), (False, True)):
+            toks = [["d0", "Setting", "r7", "42", 'HASH("a b")'][i] for i in range(k)]
+            out = IC10Register("o", code_expr="r3") if has_out else None
+            ins_ = IC10Instruction("add", [IC10Register(f"i{i}", code_expr=t) if i == 0 and t.startswith("r") else t for i, t in enumerate(toks)], out, comment=comment, indent=indent)
+            got = ins_.to_string()
+            want = _line_spec("add", indent, comment, "r3" if has_out else None, toks)
+            if got != want:
+                return {"op": "add", "inputs": toks, "output": "r3" if has_out else None, "indent": indent, "comment": comment}, repr(got)
+        return None
+
+    c = Contract(name="types.IC10Instruction.to_string", fun=cs[0][1], params=[("ins", kinds)], post={"line_is_opcode_output_inputs_in_order_then_comment": post},
+                 raises={}, native=None, world=w, classes=classes, result_view=ghost_args, search=search_instr, timeout=60.0,
+                 describe=dict(X.describe(f_str, "types.py"), track="K-complete: 0..4 inputs (tokens / registers), with / without output register; indentation, opcode, operand texts and comment symbolic",
+                               extraction_drops=["type annotations"]))
+    c.feas_timeout_ms = 300
+    return [c]
